@@ -148,15 +148,26 @@ DssOK ==
                                                        /\ DSAOk(G, y, O(i).m2, NumVal(O(i).r2), NumVal(O(i).s2))
            /\ \A a, b \in fin2 : O(a).r2.id = O(b).r2.id /\ O(a).s2.id = O(b).s2.id
 
+\* C16, second sentence: the library's verifiers accept exactly what the standard equation and range conditions accept
+TDssVer == /\ IsEv("DssVer") /\ "exc" \notin DOMAIN Ev
+           /\ Ev.res = DSAOk(G, Ev.y, Ev.m, Ev.r, Ev.s)
+           /\ UNCHANGED <<cur, outs>> /\ l' = l + 1
+TNtsVer == /\ IsEv("NtsVer")
+           /\ LET r == SchnorrR(G, Ev.y, ExpOf(Ev.c), ExpOf(Ev.s))
+                  asked == \E k \in 1..Len(Ev.hv) : Len(Ev.hv[k]["in"]) = 2 /\ Ev.hv[k]["in"][1].sm = Ev.m /\ Ev.hv[k]["in"][2].sm = r
+                                                     /\ Ev.hv[k].out.id = Ev.c.id
+              IN Ev.res = asked
+           /\ UNCHANGED <<cur, outs>> /\ l' = l + 1
 TEnd ==
   /\ IsEv("End")
-  /\ CASE cur.proto = "dkg" -> DkgOK
+  /\ CASE cur.proto = "verify" -> TRUE
+       [] cur.proto = "dkg" -> DkgOK
        [] cur.proto = "nts" -> NtsOK
        [] cur.proto = "vss" -> VssOK
        [] cur.proto = "dss" -> DssOK
   /\ UNCHANGED <<cur, outs>> /\ l' = l + 1
 
-TNext == TReset \/ TOut \/ TEnd
+TNext == TReset \/ TOut \/ TEnd \/ TDssVer \/ TNtsVer
 TSpec == TInit /\ [][TNext]_vars
 Accepted == TLCGet("stats").diameter = Len(TraceLog) + 1
 =============================================================================
